@@ -164,8 +164,8 @@ impl<B: WebBody> GrpcWebCall<B> {
             },
     { unimplemented!() }
 }
-// A-tonic-web-01: decode_trailers_frame parses the HTTP/1 header block of one complete trailers frame (iterator code,
-// out of reach of the verifier: contents of the returned map are NOT specified here)
+// A-tonic-web-01: decode_trailers_frame parses the HTTP/1 header block of one complete trailers frame; WHAT it returns is
+// specified and proved in unit webtrailers (clauses D0/D1 + the round-trip lemma); this loop only needs that it is total
 #[verifier::external_body]
 pub fn decode_trailers_frame(buf: Bytes) -> (r: Result<Option<HeaderMap>, Status>) { unimplemented!() }
 // a run of complete trailers frames
